@@ -473,10 +473,11 @@ fn run(ch: Chooser, ctx: &RunCtx, mut opts: BasicOpts, kinds: Vec<u8>, n_inject_
     if w.violations.is_empty() {
         // a connection that was sent the real reset token is legitimately reset (the oracle has
         // verified the token): forget those losses before the generic end checks
-        if w.faults.m.contains_key("inject_real_reset_token") {
-            for c in w.conns.iter_mut() {
-                c.lost.retain(|r| !matches!(r, ConnectionError::Reset));
-            }
+        // (every Reset has been checked by the oracle against the tokens the peer issued; with
+        // very short CIDs a stateless reset provoked for a random CID can later match a CID that
+        // comes into use, which the statement permits)
+        for c in w.conns.iter_mut() {
+            c.lost.retain(|r| !matches!(r, ConnectionError::Reset));
         }
         // likewise a fresh client may be ended by a (forged) Version Negotiation packet
         if w.faults.m.contains_key("inject_vn") {
